@@ -73,6 +73,8 @@ func (v mkVal) MarshalJSON() ([]byte, error) {
 	switch v.T {
 	case "int":
 		return json.Marshal(map[string]any{"t": "int", "i": v.I})
+	case "big":
+		return json.Marshal(map[string]any{"t": "big", "s": mkInts(v.S)})
 	case "dec":
 		return json.Marshal(map[string]any{"t": "dec", "i": v.I, "f": v.F, "k": v.K})
 	case "bool":
@@ -191,6 +193,8 @@ func (l mkLayout) val(v mkVal) string {
 	switch v.T {
 	case "int":
 		return strconv.Itoa(v.I)
+	case "big":
+		return mkStr(v.S)
 	case "dec":
 		return fmt.Sprintf("%d.%0*d", v.I, v.K, v.F)
 	case "bool":
@@ -319,7 +323,7 @@ func (v mkRV) MarshalJSON() ([]byte, error) {
 		m["u"] = v.U
 	case "bool":
 		m["b"] = v.B
-	case "str":
+	case "str", "big":
 		m["s"] = mkInts(v.S)
 	}
 	if v.Inexact {
@@ -364,6 +368,10 @@ func mkConvertValue(v markup.Value) mkRV {
 	switch v.ValueType {
 	case markup.ValueTypeInteger:
 		n, big := mkClampInt(v.IntegerValue)
+		if big {
+			// beyond TLC's integers: the value crosses as its decimal digits
+			return mkRV{T: "big", S: mkCps(strconv.Itoa(v.IntegerValue))}
+		}
 		return mkRV{T: "int", I: n, Inexact: big}
 	case markup.ValueTypeFloat:
 		x := v.FloatValue * 1e4
@@ -575,6 +583,8 @@ func mkCanonAttr(name []int, pos, ln int, ps []mkRProp, tfa []int) string {
 			fmt.Fprintf(&b, "%v=b%v", p.N, v.B)
 		case "str":
 			fmt.Fprintf(&b, "%v=s%v", p.N, v.S)
+		case "big":
+			fmt.Fprintf(&b, "%v=B%v", p.N, v.S)
 		default:
 			fmt.Fprintf(&b, "%v=?", p.N)
 		}
